@@ -125,7 +125,25 @@ def make_data(wrapped, extra=None):
         raise StopIteration
 
     from markupsafe import Markup
-    d = {"fls": [0.1] * 10, "flrecs": [{"v": 0.1}] * 10, "tup": (4, 5, 6), "pairs": [(1, "a"), (2, "b")], "dct": {"b": 2, "a": 1}, "mku": Markup("<b>m</b>"), "flt": 2.5, "tru": True,
+    import types
+
+    class GetItemSeq:
+        def __init__(self, items):
+            self.items = list(items)
+
+        def __getitem__(self, i):
+            return self.items[i]
+
+        def __len__(self):
+            return len(self.items)
+
+    def plaingen():
+        return (x for x in (1, 2))
+
+    def legacy(x=1):
+        return x * 3
+
+    d = {"gis": GetItemSeq([5, 0, 7]), "plaingen": plaingen, "legacy": legacy, "fls": [0.1] * 10, "flrecs": [{"v": 0.1}] * 10, "tup": (4, 5, 6), "pairs": [(1, "a"), (2, "b")], "dct": {"b": 2, "a": 1}, "mku": Markup("<b>m</b>"), "flt": 2.5, "tru": True,
          "geni": geni, "stop": stop, "seq": [3, 1, 2, 3], "recs": [{"n": 1, "a": "x"}, {"n": 2, "a": "y"}, {"n": 1, "a": "z"}], "empty": [],
          "words": ["b", "a"], "fn": fn, "mk": mk, "n": 5, "s": "str",
          "recs2": [{"n": 1, "a": "x"}, {"a": "Y"}, {"n": 1}, {"a": "y", "n": 2}]}
@@ -147,7 +165,12 @@ def make_data(wrapped, extra=None):
         async def astop():
             raise StopIteration
 
-        d.update(geni=ageni, stop=astop, fn=afn, mk=amk, seq=AIterable(d["seq"]), recs=AIterable(d["recs"]), empty=AIterable([]), words=AIterable(d["words"]),
+        @types.coroutine
+        def alegacy(x=1):
+            yield from asyncio.sleep(0).__await__()
+            return x * 3
+
+        d.update(legacy=alegacy, geni=ageni, stop=astop, fn=afn, mk=amk, seq=AIterable(d["seq"]), recs=AIterable(d["recs"]), empty=AIterable([]), words=AIterable(d["words"]),
                  recs2=AIterable(d["recs2"]), tup=AIterable(d["tup"]), pairs=AIterable(d["pairs"]),
                  fls=AIterable(d["fls"]), flrecs=AIterable(d["flrecs"]))
     return d
@@ -207,6 +230,14 @@ SNIPS = [
     # len() of the loop object (recorded finding C09-F9), StopIteration out of a data callable (C09-F10)
     "{% for x in seq %}{{ loop|length }}{% endfor %}", "{% for x in seq if x %}{{ loop|length }}{{ x }}{% endfor %}",
     "{% for x in mk() %}{{ loop|length }}{{ loop.length }}{% endfor %}", "[{{ stop() }}]{{ stop() is undefined }}",
+    # a named lazy filter result consumed more than once (first must not finalise it)
+    "{% set m = seq|map('string') %}{{ m|first }}{{ m|list }}", "{% set m = seq|select('odd') %}{{ m|first }}[{{ m|join(',') }}]{{ m|list }}",
+    "{% set m = words|map('upper') %}{% for x in m %}{{ x }}{% break %}{% endfor %}{{ m|list }}",
+    # an iterable through the sequence protocol only (__getitem__ / __len__), as loop source and filter input
+    "{% for x in gis %}{{ x }}{{ loop.index }}{% endfor %}{{ gis|list }}{{ gis|first }}{{ gis|join('+') }}{{ gis|sum }}",
+    "{{ gis|map('string')|list }}{{ gis|select('odd')|list }}{% for x in gis if x %}{{ x }}{% endfor %}{{ gis|sort }}{{ gis|length }}",
+    # callables returning a plain generator / a generator-based coroutine (types.coroutine)
+    "{% for x in plaingen() %}{{ x }}{% endfor %}{{ legacy(3) }}{{ legacy(fn(1)) + 1 }}", "{{ legacy(1) }}{% for x in plaingen() %}{{ legacy(x) }}{% endfor %}",
     # float accumulation (the builtin sum compensates on 3.12: both modes must use it)
     "{{ fls|sum }}{{ fls|sum(start=1) }}{{ flrecs|sum(attribute='v') }}",
     # str start value of sum (recorded finding C09-F8)
@@ -221,6 +252,17 @@ AUX = {"inc.html": "[{{ fn(5) }}{% for x in seq %}{{ x }}{% endfor %}]",
 PROBES = [
     ("{{ 2 in seq|map('abs') }}", "async generator fed to operator in"),
     ("{{ seq|map('abs') is iterable }}", "async generator fed to test iterable"),
+]
+
+
+# async-iterable DATA (not an engine generator) fed to consumers that have no async support: sync renders a value
+# from the list, async raises - one recorded finding per consumer; (template, signature)
+WRAPPED_PROBES = [
+    ("{{ seq|last }}", "async iterable data fed to last"),
+    ("{{ seq|length }}", "async iterable data fed to length"),
+    ("{{ 2 in seq }}", "async iterable data fed to operator in"),
+    ("{{ fn(*tup) }}", "async iterable data fed to star-args"),
+    ("{% set a, b, c = tup %}{{ a }}{{ c }}", "async iterable data fed to unpacking"),
 ]
 
 
@@ -488,6 +530,16 @@ def oracle(ctx, jinja2, loop):
         if s != a:
             ctx.reject({"templates": ts, "env": "Environment", "entry": "render", "wrapped": False, "sync": s, "async": a},
                        f"async mode differs: sync {s!r}, async {a!r}", sig)
+        else:
+            ctx.validated()
+    for (src, sig) in WRAPPED_PROBES:
+        ts = {"main.html": src}
+        s_out = run_entry(make_env(jinja2, jinja2.Environment, ts, False), loop, "main.html", make_data(False), "render")
+        a_out = run_entry(make_env(jinja2, jinja2.Environment, ts, True), loop, "main.html", make_data(True), "render_async")
+        ctx.case(key=("wrapped-probe", src))
+        if s_out != a_out:
+            ctx.reject({"templates": ts, "env": "Environment", "entry": "render_async", "mode": "async", "wrapped": True, "expected": s_out, "got": a_out},
+                       f"async mode with async-iterable data differs: sync {s_out!r}, async {a_out!r}", sig)
         else:
             ctx.validated()
     for i in range(n):
